@@ -10,7 +10,8 @@
                mal = ""        "bytes=" specs joined by ","   ("a-b", "a-", "-a")
                mal = "absent"  no Range header at all
                otherwise       a malformed header of that class ("bytes=", "x-y", no unit ...)
-             acc = the client sent Accept-Encoding: gzip
+             af = the Accept-Encoding header the driver sends: "none" (no header), "gzip",
+                  "list" ("deflate, gzip;q=0.8"), "star" ("*"), "identity", "q0" ("gzip;q=0")
    response  [st, ce, mp, parts |-> <<[s, e, t, b]>>, body, gz, err]
              ce     Content-Encoding header
              mp     the answer was multipart/byteranges
@@ -26,6 +27,7 @@
 EXTENDS Integers, Sequences, FiniteSets, TLC, Json
 CONSTANTS MaxLen,   \* model checking / generation: contents of length 0..MaxLen
           Grid,     \* Grid[n] = numbers 0..Grid[n] are used in generated headers of n ranges (-1: none)
+          GenAcc,   \* Accept-Encoding forms used by the generator
           MaxOps
 VARIABLES content, gzs, hasrep, rep, cur, hist
 vars == <<content, gzs, hasrep, rep, cur, hist>>
@@ -49,6 +51,10 @@ Wanted(h, L) == UNION {Positions(h.specs[i], L) : i \in SatIdx(h, L)}
 (* a suffix range on an empty representation: "satisfiable" by the letter of the RFC
    although there is not a single byte to send - every answer that carries no bytes is admitted *)
 EmptyQuirk(h, L) == L = 0 /\ \E i \in Idx(h.specs) : h.specs[i].k = "-n" /\ h.specs[i].a > 0
+
+(* RFC 7231 5.3.4: does the client accept a gzip-coded answer *)
+AccForms == {"none", "gzip", "list", "star", "identity", "q0"}
+Accepts(af) == af \in {"gzip", "list", "star"}
 
 (* ---------------- the response ---------------- *)
 UseGz(res) == res.ce = "gzip"
@@ -118,7 +124,7 @@ Dev416(c, hr, r, h, acc, res) ==
   /\ \E i \in Idx(h.specs) : h.specs[i].k \in {"ab", "a-"} /\ h.specs[i].a > L
 
 (* ---------------- actions (used by the judge) ---------------- *)
-Get(h, acc, res) == Admitted(content, hasrep, rep, h, acc, res) /\ UNCHANGED <<content, gzs, hasrep, rep>>
+Get(h, af, res) == Admitted(content, hasrep, rep, h, Accepts(af), res) /\ UNCHANGED <<content, gzs, hasrep, rep>>
 
 (* ---------------- generator / model-checking view ---------------- *)
 Bytes(L) == [i \in 1..L |-> 10 + i]
@@ -139,9 +145,9 @@ Init == /\ content \in {Bytes(L) : L \in 0..MaxLen}
         /\ rep = IF gzs THEN FakeEnc(content) ELSE <<>>
         /\ cur = None /\ hist = <<>>
 GenNext == /\ Len(hist) < MaxOps
-           /\ \E h \in Headers, acc \in BOOLEAN :
-                /\ cur' = [h |-> h, acc |-> acc]
-                /\ hist' = Append(hist, [ev |-> "get", h |-> h, acc |-> acc])
+           /\ \E h \in Headers, af \in GenAcc :
+                /\ cur' = [h |-> h, af |-> af]
+                /\ hist' = Append(hist, [ev |-> "get", h |-> h, af |-> af])
            /\ UNCHANGED <<content, gzs, hasrep, rep>>
 Spec == Init /\ [][GenNext]_vars
 
@@ -180,14 +186,14 @@ NearMisses(c, r, h, gzip) ==
     \cup {R416(gzip)}
     \cup {[R206(<<Part(R, 0, 0)>>, FALSE, gzip) EXCEPT !.parts[1].b = <<99>>]}
     \cup {[R200(c, gzip) EXCEPT !.err = TRUE]}
-Adm(res) == Admitted(content, hasrep, rep, cur.h, cur.acc, res)
+Adm(res) == Admitted(content, hasrep, rep, cur.h, Accepts(cur.af), res)
 Requested(sp, L, p) == CASE sp.k = "ab" -> sp.a <= p /\ p <= sp.b
                          [] sp.k = "a-" -> sp.a <= p
                          [] sp.k = "-n" -> L - sp.a <= p
 (* every request has an admitted answer; an ignoring server is always admitted *)
 NonVacuous == cur = None \/ /\ Adm(Ideal(content, rep, cur.h, FALSE))
                             /\ Adm(Ignoring(content, FALSE))
-                            /\ (cur.acc /\ hasrep) => Adm(Ideal(content, rep, cur.h, TRUE)) /\ Adm(Ignoring(content, TRUE))
+                            /\ (Accepts(cur.af) /\ hasrep) => Adm(Ideal(content, rep, cur.h, TRUE)) /\ Adm(Ignoring(content, TRUE))
 (* an admitted single-part 206 carries exactly the bytes at the positions it names, all of them
    requested by some range, and - for a single "a-b" request - exactly a..min(b, L-1) *)
 ExactBytes == cur = None \/ \A gzip \in {FALSE} \cup (IF hasrep THEN {TRUE} ELSE {}) :
@@ -202,7 +208,7 @@ ExactBytes == cur = None \/ \A gzip \in {FALSE} \cup (IF hasrep THEN {TRUE} ELSE
             p.s = cur.h.specs[1].a /\ p.e = Min(cur.h.specs[1].b, Len(R) - 1)
 Complete200 == cur = None \/ \A gzip \in BOOLEAN : \A res \in NearMisses(content, rep, cur.h, gzip) :
   (Adm(res) /\ res.st = 200) => res.body = content /\ ~res.err
-GzipOnlyIfAccepted == cur = None \/ \A res \in NearMisses(content, rep, cur.h, TRUE) : Adm(res) => cur.acc /\ hasrep
+GzipOnlyIfAccepted == cur = None \/ \A res \in NearMisses(content, rep, cur.h, TRUE) : Adm(res) => Accepts(cur.af) /\ hasrep /\ cur.af # "q0"
 (* 416 only when no byte of the representation is requested by a well-formed header *)
 Only416WhenNothing == cur = None \/ \A gzip \in BOOLEAN : \A res \in NearMisses(content, rep, cur.h, gzip) :
   (Adm(res) /\ res.st = 416) =>
@@ -212,5 +218,5 @@ Only416WhenNothing == cur = None \/ \A gzip \in BOOLEAN : \A res \in NearMisses(
 DeviationsAreViolations == cur = None \/ \A gzip \in BOOLEAN :
   LET bad == {R206(CodeParts(cur.h, IF gzip THEN rep ELSE content), Len(cur.h.specs) > 1, gzip), R416(gzip)} IN
   \A res \in bad :
-    (DevEmpty206(content, hasrep, rep, cur.h, cur.acc, res) \/ Dev416(content, hasrep, rep, cur.h, cur.acc, res)) => ~Adm(res)
+    (DevEmpty206(content, hasrep, rep, cur.h, Accepts(cur.af), res) \/ Dev416(content, hasrep, rep, cur.h, Accepts(cur.af), res)) => ~Adm(res)
 =============================================================================
